@@ -92,3 +92,37 @@ Definition render (ch : N) (k : ckind) (props : N) (parts : list bytes) : list f
    completes the body, so it is not empty; an empty body has no body frame *)
 Definition valid_parts (parts : list bytes) : Prop :=
   parts = [] \/ exists ps p, parts = ps ++ [p] /\ p <> [].
+
+(* one frame of the compliant reading, with the state threaded (used by oracles that need
+   to know WHEN a message completed); None: the frame is one a compliant server cannot
+   send at this point *)
+Definition ref_step (st : alist rstate) (f : frame) : option (alist rstate * list (addressee * rmsg)) :=
+  let start ch k :=
+    match alookup ch st with
+    | None | Some RSNone => Some (ainsert ch (RSStart k) st, [])
+    | _ => None
+    end in
+  match f with
+  | FMethod ch (MDeliver tag dtag red exch rk) => start ch (CDeliver tag dtag red exch rk)
+  | FMethod ch (MReturn code text exch rk) => start ch (CReturn code text exch rk)
+  | FMethod ch (MGetOk dtag red exch rk count) => start ch (CGet dtag red exch rk count)
+  | FHeader ch size props =>
+      match alookup ch st with
+      | Some (RSStart k) =>
+          if size =? 0 then Some (ainsert ch RSNone st, [finish ch k props []])
+          else Some (ainsert ch (RSBody k size props []) st, [])
+      | _ => None
+      end
+  | FBody ch body =>
+      match alookup ch st with
+      | Some (RSBody k size props acc) =>
+          let acc' := acc ++ body in
+          match N.of_nat (length acc') ?= size with
+          | Eq => Some (ainsert ch RSNone st, [finish ch k props acc'])
+          | Lt => Some (ainsert ch (RSBody k size props acc') st, [])
+          | Gt => None
+          end
+      | _ => None
+      end
+  | _ => Some (st, [])
+  end.
